@@ -629,3 +629,23 @@ def first_match_scan(fx, body):
         guarded = all(any(g.startswith("T:") for g in guard_strs(body, d[0]) if "next(" not in g or True) for d in hits)
         return {"form": "loop", "test_calls": tests, "first": not backwards and not again and guarded}
     return None
+
+
+def value_leaves(body, operand, depth=0):
+    """The definitions a value can come from, looking through unnamed multi-definition temporaries (the `match`/`if`
+    expression form `x = match .. { A => a, B => b }` assigns a temp in every arm and moves it once): list of
+    (bb, rvalue-or-Call).  A named local or a single-definition temp is a leaf of its own."""
+    if not isinstance(operand, dict) or not ("mv" in operand or "cp" in operand) or depth > 4:
+        return None
+    p = op_place(operand)
+    l = pl_local(p)
+    if pl_proj(p) or body.local_name(l) or 1 <= l <= body.argc:
+        return None
+    ds = [d for d in body.def_sites(l) if isinstance(d[2], int)]
+    if len(ds) < 2:
+        return None
+    out = []
+    for (bb, idx, lhs, rhs) in ds:
+        sub = value_leaves(body, rhs["op"], depth + 1) if isinstance(rhs, dict) and rhs["k"] == "use" else None
+        out.extend(sub if sub else [(bb, rhs)])
+    return out
